@@ -260,7 +260,8 @@ other("C16", "Proved: the manifest name carries strftime(now(timezone.utc)) (gro
       static=True,
       assumptions=["datetime / time zone database: naive.astimezone() attaches the offset in force at that local time (fold-aware)"])
 other("C17", "Proved: find_hash_entry_for_format, find_first_hash_entry_for_path (used to match renamed files). Bounded: the rename "
-      "matching region of create -dr and the follow-up commands on all sets of simultaneous renames / moves."
+      "matching region of create -dr and the follow-up commands on all sets of simultaneous renames / moves, also with runs between the renames and the -dr run. "
+      "Guard obligations (vf/statics.py): every store to previous_path in the rename region is under a test equating the recorded digest of the missing path with a digest of the new path."
       " Heap frames (vf/statics.py): every store to previous_path anywhere in the package sits in a function whose declared frame contains the field, so what the contracts establish is not rewritten behind their back.", static=True)
 other("C18", "Proved: one iteration of the merge loop of flatten_history as a region contract, for an arbitrary recorded entry and arbitrary "
       "contents of the collection so far - a failed entry is never copied; an entry is copied (format, digest, action unchanged) exactly if "
